@@ -523,6 +523,7 @@ package main
 //@   property C10
 //@   skip safety call-requires
 //@   ensures @print-builtins-are-redirected: old(dyntypeis(node, *ast.CallExpr) && dyntypeis(node.(*ast.CallExpr).Fun, *ast.Ident) && (node.(*ast.CallExpr).Fun.(*ast.Ident).Name == "print" || node.(*ast.CallExpr).Fun.(*ast.Ident).Name == "println")) ==> node.(*ast.CallExpr).Fun.(*ast.Ident).Name == "hidePrint"
+//@   ensures @the-walk-only-stops-below-a-redirected-print: !r0 ==> old(dyntypeis(node, *ast.CallExpr) && dyntypeis(node.(*ast.CallExpr).Fun, *ast.Ident) && (node.(*ast.CallExpr).Fun.(*ast.Ident).Name == "print" || node.(*ast.CallExpr).Fun.(*ast.Ident).Name == "println"))
 //@   ensures @other-calls-are-kept: old(dyntypeis(node, *ast.CallExpr) && dyntypeis(node.(*ast.CallExpr).Fun, *ast.Ident) && node.(*ast.CallExpr).Fun.(*ast.Ident).Name != "print" && node.(*ast.CallExpr).Fun.(*ast.Ident).Name != "println") ==> node.(*ast.CallExpr).Fun.(*ast.Ident).Name == old(node.(*ast.CallExpr).Fun.(*ast.Ident).Name)
 //@ end
 
